@@ -528,6 +528,68 @@ def two_managers_case(case):
     return res
 
 
+def tee_head_case(case):
+    """`tee file then head -n k` (and redirected tee inside put, and split -v) on an input of many batches: the file(s)
+    must receive every record although head stops consuming early; the main stream is the first k."""
+    rng = random.Random(case["seed"])
+    n, rpb, k, form, fmt = case["n"], case["rpb"], case["k"], case["form"], case["fmt"]
+    recs = [[("id", f"r{i+1}"), ("t", "x"), ("v", str(rng.randint(0, 999)))] for i in range(n)]
+    inp = gen.dkvp(recs)
+    ext = "out"
+    if form == "tee-verb":
+        chain = ["tee", "full." + ext, "then", "head", "-n", str(k)]
+    elif form == "tee-dsl":
+        chain = ["put", 'tee > "full.%s", $*' % ext, "then", "head", "-n", str(k)]
+    elif form == "split-v":
+        chain = ["split", "-v", "-g", "t", "--prefix", "full", "--suffix", ext, "then", "head", "-n", str(k)]
+    else:
+        chain = ["cat", "then", "tee", "full." + ext, "then", "put", "$z = 1", "then", "head", "-n", str(k)]
+    argv = ["--idkvp", OFLAG[fmt], "--records-per-batch", str(rpb)] + chain
+    cwd = R.new_scratch("vf20-")
+    res = case_result(_h("teehead", case["seed"], n, rpb, k, form, fmt), nontrivial=True)
+    try:
+        r = R.mlr(argv, stdin=inp, cwd=cwd, env={"MLR_VERIF_SCHED": case["sched"]} if case.get("sched") else None)
+        bump(res, "tee_head_histories")
+        detail = {"argv": argv, "n_records": n, "gen_seed": case["seed"], "stdin": f"<{n} records id=r1..r{n},t=x,v=...>"}
+        sig0 = {"stmt": form, "format": fmt, "mode": "write", "beyond_cache": False}
+        if r.verdict != "exited" or r.rc != 0:
+            if r.verdict == "slow":
+                res["inconc"] += 1
+            elif r.verdict == "deadlock":
+                add_violation(res, dict(sig0, kind="deadlock", blocked="|".join(r.hang_sig or [])), f"{form} then head deadlocks", dict(detail, dump=(r.dump or "")[-3000:]))
+            else:
+                add_violation(res, dict(sig0, kind="fails"), f"{form} then head: {r.verdict} rc={r.rc} {r.err[:200]}", detail)
+            return res
+        after = R.read_files(cwd)
+        fn = "full." + ext if form != "split-v" else "full_x." + ext
+        text = after.get(fn, b"").decode("utf-8", "replace")
+        try:
+            got = [dict(o).get("id") for o in read_strict(fmt, text, ["id", "t", "v"])]
+        except Malformed as e:
+            add_violation(res, dict(sig0, kind="not-one-document", why=str(e)[:50], reopened_after_eviction=False), f"{fn}: {e}", detail)
+            return res
+        exp = [f"r{i+1}" for i in range(n)]
+        if form in ("tee-dsl", "split-v"):
+            # Only the tee VERB is documented not to forward head's "done" flag upstream; put and split do forward it, so
+            # the reader may legitimately stop early and the statement's "records routed to it" are those the verb received.
+            # Required here: a prefix of the stream, at least the k records head consumed. Truncation is counted, not judged.
+            if got != exp[:len(got)] or len(got) < min(k, n):
+                add_violation(res, dict(sig0, kind="content"), f"{form} then head: file is not a prefix (>= k) of the stream: {len(got)} records", dict(detail, got=got[:10]))
+            elif len(got) < n:
+                bump(res, "redirect_or_split_before_head_stopped_early")
+        elif got != exp:
+            add_violation(res, dict(sig0, kind="tee-incomplete-before-head"),
+                          f"{form} then head -n {k} on {n} records (batch {rpb}): the file has {len(got)} records, all {n} reached the tee",
+                          dict(detail, got_n=len(got)))
+        main = [dict(o).get("id") for o in (read_strict(fmt, r.out, ["id", "t", "v"]) if fmt != "json" else [[(a, str(b)) for a, b in o] for o in gen.parse_json_records(r.out)])]
+        if main != exp[:k]:
+            add_violation(res, dict(sig0, kind="main-stream", tail="head"), f"main stream after {form} then head -n {k}: {len(main)} records", dict(detail, got=main[:10]))
+        res["sample"] = {"monitor": "tee-then-head", "argv": argv, "n": n}
+    finally:
+        shutil.rmtree(cwd, ignore_errors=True)
+    return res
+
+
 def run(chk):
     rng = chk.rng("grid")
     q = chk.quick()
@@ -600,6 +662,12 @@ def run(chk):
         tm.append({"seed": f"{chk.seed}/two/{i}", "T": rng.choice([3, 130, 257, 300]), "n": rng.choice([50, 900]), "same": i % 2 == 0,
                    "rpb": rng.choice([1, 2, 500]), "binary": "mlr-race" if i % 3 == 0 else "mlr-verif"})
     chk.pmap(two_managers_case, tm, label="two managers")
+    th = []
+    forms = ["tee-verb", "tee-dsl", "split-v", "tee-mid"]
+    for i in range(24 if q else 400):
+        th.append({"seed": f"{chk.seed}/th/{i}", "n": rng.choice([1200, 2500, 6000]), "rpb": rng.choice([1, 2, 500, 500]), "k": rng.choice([0, 1, 2, 7]),
+                   "form": forms[i % 4], "fmt": rng.choice(["dkvp", "csv", "json", "jsonl"]), "sched": rng.choice([None, f"{rng.randint(1, 10**6)}:300"])})
+    chk.pmap(tee_head_case, th, label="tee/split -v before head on many batches")
     ev = chk.stats.get("site:fo.evict", 0)
     chk.extra["evictions_observed"] = ev
     chk.extra["reopens_observed"] = chk.stats.get("site:fo.reopen", 0)
@@ -611,6 +679,7 @@ def run(chk):
         "pipe targets: T <= 40 (pipes are not evicted; documented), sinks are `cat > file`",
         "split file naming: <prefix>_<url-escaped group value>.<format extension> as documented in `mlr split --help`",
         "append onto pre-existing content is checked for print (line) targets; record formats are checked on absent files",
+        "only the tee verb is documented to keep receiving everything when a later head stops early; `put 'tee > ...' then head` and `split -v then head` forward head's done flag, so their files are only required to be a prefix (>= k) of the stream",
     ]
     if chk.stats.get("histories_beyond_cache", 0) > 0 and ev == 0:
         chk.exceptions.append(("evictions", "histories with T > 256 ran but no fo.evict hook hit was observed: broken observation"))
